@@ -70,13 +70,16 @@ CLAIMS = {
                 text="TLC checks NothingMissed, TightSpan, EqualsFixed, ContentsStayPut in index space (1-2 axes, empty or pre-filled); every "
                      "history is replayed for 4-8 (width, shift) grids with values on the left edge / mid-bin / one ulp below the right edge of "
                      "float-grid bin k; in the other direction random float programs (decimal literals such as 1.7 with width 0.1, edge "
-                     "neighbours, far values, data-derived fixed_width/pretty/integer binnings) are recorded and validated by TLC (TraceAdaptive)",
+                     "neighbours, far values, data-derived fixed_width/pretty/integer binnings) are recorded and validated by TLC (TraceAdaptive); "
+                     "the axis algebra of growth and union is proved for all integers by TLAPS (PhystAdaptiveProof, checked by tlapm in every run)",
                 technique="TLA+ spec PhystAdaptive + TLC; lockstep replay AND trace validation of recorded executions (ndjson -> TLC)"),
     "C19": dict(spec="PhystConfig", design="5/C19",
                 text="TLC explores all interleavings of 3 executions (threads or asyncio tasks) over Enter/Exit/Raise(k)/SetDirect/Spawn/Arith/"
                      "Finish with invariants Isolation, Restored, NoCrossTalk; an edge cover of the state graph plus random behaviours is "
                      "executed in the real runtime (baton-stepped threads, queue-stepped tasks, real nested with-blocks and exceptions), "
-                     "every running execution observing the switch after every step, for PHYST_FREE_ARITHMETICS unset/0/1",
+                     "every running execution observing the switch after every step, for PHYST_FREE_ARITHMETICS unset/0/1; the four properties "
+                     "are also proved by TLAPS for any number of executions, nesting depth and history length (PhystConfigProof, checked by tlapm "
+                     "in every run)",
                 technique="TLA+ interleaving model PhystConfig + TLC; behaviours of the state graph executed deterministically on real threads/tasks"),
     "C07": dict(spec="PhystBinnings", design="5/C07",
                 text="TLC checks RepresentationsAgree on every bin array (<= 3 bins over 5 edges, consecutive and gapped) and the rule laws "
@@ -157,6 +160,10 @@ def main():
         "engines": [
             {"name": "M", "path": "lib/tlc.py", "serves_properties": sorted(CLAIMS), "kind_free_text": "TLC model checking of spec/*.tla (invariants, action properties)"},
             {"name": "R", "path": "lib/replay.py", "serves_properties": sorted(CLAIMS), "kind_free_text": "lockstep replay of TLC's labelled state graph / simulated behaviours into real physt objects"},
+            {"name": "T", "path": "props/trace_c04.py", "serves_properties": ["C01", "C02", "C03", "C04", "C07"],
+             "kind_free_text": "trace validation: executions recorded from physt on raw floats, abstracted (grid index / rank) and checked by TLC against TraceAdaptive / TraceHist1D / TraceHistND"},
+            {"name": "P", "path": "lib/tlaps.py", "serves_properties": ["C04", "C19"],
+             "kind_free_text": "TLAPS (tlapm) proofs of the unbounded design: PhystConfigProof, PhystAdaptiveProof"},
         ],
         "checks": checks,
         "not_applicable": na,
